@@ -497,7 +497,7 @@ def gen_all(ctx):
         c['zchunks'], c['vchunks'], c['chunkmode'] = c02.chunk_pairs_2d(rng, rows, cols)
         cases.append(c)
     # appended theme cases: layouts of each argument, id containers, 1-wide / single chunks, degenerate rasters, repeated compute
-    for i in range(24 if q else 400):
+    for i in range(18 if q else 400):
         kind = ['stats', 'xtab2'][i % 2]
         c = gen_case(rng, i, kind)
         th = ['layout', 'containers', 'one-wide-chunks', 'degenerate', 'repeat', 'float16'][(i // 2) % 6]
@@ -563,7 +563,7 @@ def run(ctx, cases=None, groups=None):
     cases = cases if cases is not None else gen_all(ctx)
     if groups is None:
         groups = [gen_together(ctx.rng, i) for i in range((45 if ctx.quick() else 500) if fresh else 0)]
-        for i in range((9 if ctx.quick() else 200) if fresh else 0):       # appended: deferred compute
+        for i in range((6 if ctx.quick() else 200) if fresh else 0):       # appended: deferred compute
             g = gen_together(ctx.rng, i)
             g['mode'] = 'deferred'
             groups.append(g)
